@@ -499,17 +499,20 @@ def run(ctx):
 
     # ---------------- R4 data tables and classes
     dic = tables.load_json("dictionary.json")
-    la = [a for a in prog.lit_arrays if a["owner"].startswith(R["sug_ty"]) or "PhoneticSuggestion" in a["owner"]]
+    # the letter → tables literal, wherever it is written: an array literal of (one ASCII letter, [table names]) rows
     names = set()
     rows = 0
-    for a in la:
+    for a in prog.lit_arrays:
         v = a["value"]
         if "array" in v:
-            for row in v["array"]:
-                if "tuple" in row and len(row["tuple"]) == 2 and "str" in row["tuple"][0] and "array" in row["tuple"][1]:
-                    rows += 1
-                    for x in row["tuple"][1]["array"]:
-                        names.add(x.get("str"))
+            shaped = [row for row in v["array"] if "tuple" in row and len(row["tuple"]) == 2 and "str" in row["tuple"][0] and "array" in row["tuple"][1]
+                      and len(row["tuple"][0]["str"]) == 1 and row["tuple"][0]["str"].isascii() and row["tuple"][0]["str"].isalpha()]
+            if len(shaped) < 20 or len(shaped) != len(v["array"]):
+                continue
+            for row in shaped:
+                rows += 1
+                for x in row["tuple"][1]["array"]:
+                    names.add(x.get("str"))
     if rows < 26:
         r4.undecidable("letter-map", "the 26-row letter→tables literal was not found (rows %d)" % rows)
     else:
